@@ -464,6 +464,18 @@ Definition session_step (max_redirects : N) (n : N) (r : response) : session_res
 (* ------------------------------------------------------------------ *)
 (* F. the gate: workers of the crawl engine around the checker         *)
 (* ------------------------------------------------------------------ *)
+(* One worker = one WebProcessorSession.process() call at a time.  Steps are the atomic
+   stretches of code between two suspension points (yield from that reaches the event loop);
+   any interleaving of the workers' steps is a run.  The URL table, the URL filters, the
+   server and the redirect locations are unconstrained: any URL may be picked at any time,
+   the filter verdict is an arbitrary boolean, any response may arrive.
+
+   WCheck     _process_robots (hop = false) / the top of a _process_loop iteration after a
+              redirect (hop = true): filters, then RobotsTxtChecker.can_fetch up to its first
+              suspension point
+   WLockWait  can_fetch: NotInPoolError seen, waiting for the origin's fetch lock
+   WRobots*   fetch_robots_txt under the lock: request of the robots.txt session pending / sent
+   WFetch*    _fetch_one: request for cur pending / sent *)
 Record config := { c_robots : bool; c_ua : str; c_max_redirects : N; c_workers : nat }.
 
 Definition robots_url (o : origin) : url := {| u_origin := o; u_text := [] |}.
@@ -471,94 +483,202 @@ Definition robots_url (o : origin) : url := {| u_origin := o; u_text := [] |}.
 
 Inductive wstate :=
 | WIdle
-| WRobotsSend (item : url) (target : url) (n : N)   (* fetch_robots_txt: next request of the session not yet sent *)
-| WRobotsWait (item : url) (target : url) (n : N)   (* sent, awaiting the response *)
-| WFetchSend (item : url) (cur : url) (hop : bool)  (* _process_loop: about to decide/send cur; hop = false: initial request *)
-| WFetchWait (item : url) (cur : url) (hop : bool).
+| WCheck (item cur : url) (hop : bool)
+| WLockWait (item cur : url) (hop : bool)
+| WRobotsSend (item cur : url) (hop : bool) (target : url) (n : N)
+| WRobotsWait (item cur : url) (hop : bool) (target : url) (n : N)
+| WFetchSend (item cur : url) (hop : bool)
+| WFetchWait (item cur : url) (hop : bool).
 
 Inductive event :=
-| EvFetchStart (w : nat) (o : origin)                 (* can_fetch: NotInPoolError, fetch_robots_txt begins *)
-| EvRobotsReq (w : nat) (o : origin) (target : url)   (* a request of the robots.txt session on the wire *)
+| EvFetchStart (w : nat) (o : origin)                 (* fetch_robots_txt begins (lock held, pool has no parser) *)
+| EvRobotsReq (w : nat) (o : origin) (target : url)   (* a request of the robots.txt session for origin o on the wire *)
 | EvStored (w : nat) (o : origin) (rules : list ruleset)   (* load_robots_txt: acquisition complete *)
-| EvPostponed (w : nat) (item : url)                  (* ServerError / network error: handle_error, item not fetched now *)
-| EvSkipped (w : nat) (item : url)                    (* verdict False: item_session.skip() *)
+| EvPostponed (w : nat) (item : url)                  (* ServerError / network error: handle_error -> set_status(error), try_count + 1 *)
+| EvSkipped (w : nat) (item : url)                    (* verdict False: item_session.skip() -> set_status(skipped) *)
 | EvReq (w : nat) (item : url) (target : url) (hop : bool).  (* a request of the item's own session on the wire *)
 
-Record gstate := { g_pool : pool; g_workers : nat -> wstate; g_trace : list event (* newest first *) }.
+Definition locks := origin -> bool.       (* RobotsTxtChecker._fetch_locks: is the origin's asyncio.Lock held *)
+Definition lock_set (l : locks) (o : origin) (v : bool) : locks := fun x => if origin_eqb o x then v else l x.
 
-Definition g_init : gstate := {| g_pool := []; g_workers := fun _ => WIdle; g_trace := [] |}.
+Record gstate := { g_pool : pool; g_locks : locks; g_workers : nat -> wstate; g_trace : list event (* newest first *) }.
+
+Definition g_init : gstate := {| g_pool := []; g_locks := fun _ => false; g_workers := fun _ => WIdle; g_trace := [] |}.
 
 Definition set_worker (ws : nat -> wstate) (i : nat) (s : wstate) : nat -> wstate :=
   fun j => if Nat.eqb j i then s else ws j.
 
-(* can_fetch_pool + the tail of _process_robots once a parser is in the pool *)
-Definition decide (cfg : config) (i : nat) (u : url) (r : list ruleset) : wstate * list event :=
-  if pool_can_fetch r (c_ua cfg) u then (WFetchSend u u false, [])
+(* can_fetch_pool when a parser is in the pool, and what the caller does with the verdict *)
+Definition decide (cfg : config) (i : nat) (u cur : url) (hop : bool) (r : list ruleset) : wstate * list event :=
+  if pool_can_fetch r (c_ua cfg) cur then (WFetchSend u cur hop, [])
   else (WIdle, [EvSkipped i u]).
 
-(* WebProcessorSession._process_robots for a fresh item (filters_ok = consult_filters verdict) *)
-Definition on_pick (cfg : config) (p : pool) (i : nat) (u : url) (filters_ok : bool)
-  : pool * wstate * list event :=
-  if negb filters_ok then (p, WIdle, [EvSkipped i u])
-  else if negb (c_robots cfg) then (p, WFetchSend u u false, [])
-  else match pool_lookup p (u_origin u) with
-       | Some r => let '(w, ev) := decide cfg i u r in (p, w, ev)
-       | None => (p, WRobotsSend u (robots_url (u_origin u)) 0, [EvFetchStart i (u_origin u)])
+(* check_initial_web_request (hop = false) / check_subsequent_web_request + consult_robots_txt
+   (hop = true), up to the first suspension point; filters_ok = the consult_filters verdict *)
+Definition on_check (cfg : config) (p : pool) (i : nat) (u cur : url) (hop : bool) (filters_ok : bool)
+  : wstate * list event :=
+  if negb filters_ok then (WIdle, [EvSkipped i u])
+  else if negb (c_robots cfg) then (WFetchSend u cur hop, [])
+  else match pool_lookup p (u_origin cur) with
+       | Some r => decide cfg i u cur hop r
+       | None => (WLockWait u cur hop, [])
        end.
 
-(* a response arrives in fetch_robots_txt; on completion can_fetch_pool is evaluated
-   in the same step (no suspension point in between) *)
-Definition on_robots_response (cfg : config) (p : pool) (i : nat) (u : url) (n : N) (r : response)
-  : pool * wstate * list event :=
-  let o := u_origin u in
+(* the lock is obtained: the pool is looked at again; third component: the lock stays held *)
+Definition on_lock (cfg : config) (p : pool) (i : nat) (u cur : url) (hop : bool) : wstate * list event * bool :=
+  match pool_lookup p (u_origin cur) with
+  | Some r => let '(w, ev) := decide cfg i u cur hop r in (w, ev, false)
+  | None => (WRobotsSend u cur hop (robots_url (u_origin cur)) 0, [EvFetchStart i (u_origin cur)], true)
+  end.
+
+(* a response arrives in fetch_robots_txt; on completion can_fetch_pool is evaluated and the lock
+   released in the same step (no suspension point in between); last component: the lock stays held *)
+Definition on_robots_response (cfg : config) (p : pool) (i : nat) (u cur : url) (hop : bool) (n : N) (r : response)
+  : pool * wstate * list event * bool :=
+  let o := u_origin cur in
   let store rules :=
-    let '(w, ev) := decide cfg i u rules in (pool_store p o rules, w, ev ++ [EvStored i o rules]) in
+    let '(w, ev) := decide cfg i u cur hop rules in (pool_store p o rules, w, ev ++ [EvStored i o rules], false) in
   match session_step (c_max_redirects cfg) n r with
-  | SNext t n' => (p, WRobotsSend u t n', [])
+  | SNext t n' => (p, WRobotsSend u cur hop t n', [], true)
   | SProtocolError => store (parse_robots [])
-  | SOtherError => (p, WIdle, [EvPostponed i u])
+  | SOtherError => (p, WIdle, [EvPostponed i u], false)
   | SFinal status body =>
       match status_action status body with
-      | RAServerError => (p, WIdle, [EvPostponed i u])
+      | RAServerError => (p, WIdle, [EvPostponed i u], false)
       | RAParse data => store (parse_robots data)
       | RABlank => store (parse_robots [])
       end
   end.
 
-(* what the item's own session does with a response: follow a redirect or finish *)
+(* what the item's own session does with a response: follow a redirect (or repeat with
+   credentials) or finish *)
 Inductive fetch_reply := FRRedirect (target : url) | FRDone.
 
 Inductive gstep (cfg : config) : gstate -> gstate -> Prop :=
-| StepPick s i u filters_ok p' w' ev :
+| StepPick s i u :
     (i < c_workers cfg)%nat -> g_workers s i = WIdle ->
-    on_pick cfg (g_pool s) i u filters_ok = (p', w', ev) ->
-    gstep cfg s {| g_pool := p'; g_workers := set_worker (g_workers s) i w'; g_trace := ev ++ g_trace s |}
-| StepRobotsSend s i u t n :
-    (i < c_workers cfg)%nat -> g_workers s i = WRobotsSend u t n ->
-    gstep cfg s {| g_pool := g_pool s; g_workers := set_worker (g_workers s) i (WRobotsWait u t n);
-                   g_trace := EvRobotsReq i (u_origin u) t :: g_trace s |}
-| StepRobotsResp s i u t n r p' w' ev :
-    (i < c_workers cfg)%nat -> g_workers s i = WRobotsWait u t n ->
-    on_robots_response cfg (g_pool s) i u n r = (p', w', ev) ->
-    gstep cfg s {| g_pool := p'; g_workers := set_worker (g_workers s) i w'; g_trace := ev ++ g_trace s |}
-| StepFetchSend s i u cur hop (sub_ok : bool) :
-    (* check_subsequent_web_request: filters only - robots.txt is NOT consulted (F20) *)
+    gstep cfg s {| g_pool := g_pool s; g_locks := g_locks s;
+                   g_workers := set_worker (g_workers s) i (WCheck u u false); g_trace := g_trace s |}
+| StepCheck s i u cur hop filters_ok w' ev :
+    (i < c_workers cfg)%nat -> g_workers s i = WCheck u cur hop ->
+    on_check cfg (g_pool s) i u cur hop filters_ok = (w', ev) ->
+    gstep cfg s {| g_pool := g_pool s; g_locks := g_locks s;
+                   g_workers := set_worker (g_workers s) i w'; g_trace := ev ++ g_trace s |}
+| StepLock s i u cur hop w' ev keep :
+    (i < c_workers cfg)%nat -> g_workers s i = WLockWait u cur hop ->
+    g_locks s (u_origin cur) = false ->
+    on_lock cfg (g_pool s) i u cur hop = (w', ev, keep) ->
+    gstep cfg s {| g_pool := g_pool s; g_locks := lock_set (g_locks s) (u_origin cur) keep;
+                   g_workers := set_worker (g_workers s) i w'; g_trace := ev ++ g_trace s |}
+| StepRobotsSend s i u cur hop t n :
+    (i < c_workers cfg)%nat -> g_workers s i = WRobotsSend u cur hop t n ->
+    gstep cfg s {| g_pool := g_pool s; g_locks := g_locks s;
+                   g_workers := set_worker (g_workers s) i (WRobotsWait u cur hop t n);
+                   g_trace := EvRobotsReq i (u_origin cur) t :: g_trace s |}
+| StepRobotsResp s i u cur hop t n r p' w' ev keep :
+    (i < c_workers cfg)%nat -> g_workers s i = WRobotsWait u cur hop t n ->
+    on_robots_response cfg (g_pool s) i u cur hop n r = (p', w', ev, keep) ->
+    gstep cfg s {| g_pool := p'; g_locks := lock_set (g_locks s) (u_origin cur) keep;
+                   g_workers := set_worker (g_workers s) i w'; g_trace := ev ++ g_trace s |}
+| StepFetchSend s i u cur hop :
     (i < c_workers cfg)%nat -> g_workers s i = WFetchSend u cur hop ->
-    gstep cfg s (if sub_ok
-                 then {| g_pool := g_pool s; g_workers := set_worker (g_workers s) i (WFetchWait u cur hop);
-                         g_trace := EvReq i u cur hop :: g_trace s |}
-                 else {| g_pool := g_pool s; g_workers := set_worker (g_workers s) i WIdle;
-                         g_trace := EvSkipped i u :: g_trace s |})
+    gstep cfg s {| g_pool := g_pool s; g_locks := g_locks s;
+                   g_workers := set_worker (g_workers s) i (WFetchWait u cur hop);
+                   g_trace := EvReq i u cur hop :: g_trace s |}
 | StepFetchResp s i u cur hop reply :
     (i < c_workers cfg)%nat -> g_workers s i = WFetchWait u cur hop ->
-    gstep cfg s {| g_pool := g_pool s;
+    gstep cfg s {| g_pool := g_pool s; g_locks := g_locks s;
                    g_workers := set_worker (g_workers s) i
-                                  (match reply with FRRedirect t => WFetchSend u t true | FRDone => WIdle end);
+                                  (match reply with FRRedirect t => WCheck u t true | FRDone => WIdle end);
                    g_trace := g_trace s |}.
 
 Inductive reachable (cfg : config) : gstate -> Prop :=
 | ReachInit : reachable cfg g_init
 | ReachStep s s' : reachable cfg s -> gstep cfg s s' -> reachable cfg s'.
+
+(* the same steps as a function of a label (used to replay observed runs of the real code
+   through the model; Proofs: every accepted label is a gstep) *)
+Inductive label :=
+| LPick (i : nat) (u : url)
+| LCheck (i : nat) (filters_ok : bool)
+| LLock (i : nat)
+| LRobotsSend (i : nat)
+| LRobotsResp (i : nat) (r : response)
+| LFetchSend (i : nat)
+| LFetchResp (i : nat) (reply : fetch_reply).
+
+Definition step_fun (cfg : config) (s : gstate) (l : label) : option gstate :=
+  match l with
+  | LPick i u =>
+      if negb (Nat.ltb i (c_workers cfg)) then None else
+      match g_workers s i with
+      | WIdle => Some {| g_pool := g_pool s; g_locks := g_locks s;
+                         g_workers := set_worker (g_workers s) i (WCheck u u false); g_trace := g_trace s |}
+      | _ => None
+      end
+  | LCheck i f =>
+      if negb (Nat.ltb i (c_workers cfg)) then None else
+      match g_workers s i with
+      | WCheck u cur hop =>
+          let '(w', ev) := on_check cfg (g_pool s) i u cur hop f in
+          Some {| g_pool := g_pool s; g_locks := g_locks s;
+                  g_workers := set_worker (g_workers s) i w'; g_trace := ev ++ g_trace s |}
+      | _ => None
+      end
+  | LLock i =>
+      if negb (Nat.ltb i (c_workers cfg)) then None else
+      match g_workers s i with
+      | WLockWait u cur hop =>
+          if g_locks s (u_origin cur) then None else
+          let '(w', ev, keep) := on_lock cfg (g_pool s) i u cur hop in
+          Some {| g_pool := g_pool s; g_locks := lock_set (g_locks s) (u_origin cur) keep;
+                  g_workers := set_worker (g_workers s) i w'; g_trace := ev ++ g_trace s |}
+      | _ => None
+      end
+  | LRobotsSend i =>
+      if negb (Nat.ltb i (c_workers cfg)) then None else
+      match g_workers s i with
+      | WRobotsSend u cur hop t n =>
+          Some {| g_pool := g_pool s; g_locks := g_locks s;
+                  g_workers := set_worker (g_workers s) i (WRobotsWait u cur hop t n);
+                  g_trace := EvRobotsReq i (u_origin cur) t :: g_trace s |}
+      | _ => None
+      end
+  | LRobotsResp i r =>
+      if negb (Nat.ltb i (c_workers cfg)) then None else
+      match g_workers s i with
+      | WRobotsWait u cur hop t n =>
+          let '(p', w', ev, keep) := on_robots_response cfg (g_pool s) i u cur hop n r in
+          Some {| g_pool := p'; g_locks := lock_set (g_locks s) (u_origin cur) keep;
+                  g_workers := set_worker (g_workers s) i w'; g_trace := ev ++ g_trace s |}
+      | _ => None
+      end
+  | LFetchSend i =>
+      if negb (Nat.ltb i (c_workers cfg)) then None else
+      match g_workers s i with
+      | WFetchSend u cur hop =>
+          Some {| g_pool := g_pool s; g_locks := g_locks s;
+                  g_workers := set_worker (g_workers s) i (WFetchWait u cur hop);
+                  g_trace := EvReq i u cur hop :: g_trace s |}
+      | _ => None
+      end
+  | LFetchResp i reply =>
+      if negb (Nat.ltb i (c_workers cfg)) then None else
+      match g_workers s i with
+      | WFetchWait u cur hop =>
+          Some {| g_pool := g_pool s; g_locks := g_locks s;
+                  g_workers := set_worker (g_workers s) i
+                                 (match reply with FRRedirect t => WCheck u t true | FRDone => WIdle end);
+                  g_trace := g_trace s |}
+      | _ => None
+      end
+  end.
+
+Fixpoint run_labels (cfg : config) (s : gstate) (ls : list label) : option gstate :=
+  match ls with
+  | [] => Some s
+  | l :: r => match step_fun cfg s l with Some s' => run_labels cfg s' r | None => None end
+  end.
 
 (* a deterministic run of ONE acquisition against scripted responses (used by the
    function-level correspondence with RobotsTxtChecker.can_fetch): returns the
@@ -581,6 +701,30 @@ Fixpoint run_acquisition (cfg : config) (u : url) (n : N) (rs : list response) (
           | RABlank => (S sent, AOVerdict (parse_robots []) (pool_can_fetch (parse_robots []) (c_ua cfg) u))
           end
       end
+  end.
+
+(* ResultRule.handle_error for the errors a robots.txt acquisition can end with, and what the URL
+   table does with the item afterwards (TriesFilter: try_count < tries; tries = 0: no limit).
+   One visit of an item whose origin answers robots.txt with 5xx: the acquisition is made again
+   (nothing was stored), the item is set to "error" with try_count + 1, its URL is not requested.
+   After [tries] such visits the TriesFilter fails and the item is skipped. *)
+Inductive istatus := StTodo | StError | StSkipped | StDone.
+Record item := { it_status : istatus; it_tries : nat }.
+
+(* one visit while robots.txt keeps answering 5xx: (item', robots.txt acquisitions, requests for the URL) *)
+Definition visit_5xx (tries : nat) (it : item) : item * nat * nat :=
+  if (Nat.eqb tries 0) || Nat.ltb (it_tries it) tries
+  then ({| it_status := StError; it_tries := S (it_tries it) |}, 1%nat, 0%nat)
+  else ({| it_status := StSkipped; it_tries := S (it_tries it) |}, 0%nat, 0%nat).
+
+(* the item is picked again while its status is todo / error *)
+Fixpoint visits_5xx (fuel tries : nat) (it : item) (acqs : nat) : item * nat :=
+  match fuel with
+  | O => (it, acqs)
+  | S f => match it_status it with
+           | StTodo | StError => let '(it', a, _) := visit_5xx tries it in visits_5xx f tries it' (acqs + a)
+           | _ => (it, acqs)
+           end
   end.
 
 (* ------------------------------------------------------------------ *)
